@@ -243,6 +243,57 @@ func (c *Ctx) runCase(section, id string, i int, fn func(i int, r *Rand)) {
 	c.mu.Unlock()
 }
 
+// ParallelCases runs this shard's cases of a section on g goroutines at the same time. fn
+// must only touch its own objects, its own r and the (mutex-protected) Ctx methods. It is used
+// to observe functions that must stay pure and independent under concurrent callers: the
+// oracle inside fn is the sequential one, the concurrency comes from running many at once.
+// The whole block is journalled (and replayed) as one case "<section>#par".
+func (c *Ctx) ParallelCases(section string, n, g int, fn func(i int, r *Rand)) {
+	id := section + "#par"
+	if (c.Only != "" && c.Only != id) || c.Resume[id] {
+		return
+	}
+	c.Journal(id, section)
+	var idx []int
+	for i := 0; i < n; i++ {
+		if i%c.NShards == c.Shard {
+			idx = append(idx, i)
+		}
+	}
+	var wg sync.WaitGroup
+	var next int64 = -1
+	var mu sync.Mutex
+	for w := 0; w < g; w++ {
+		wg.Add(1)
+		go func() {
+			defer wg.Done()
+			for {
+				mu.Lock()
+				next++
+				k := next
+				mu.Unlock()
+				if int(k) >= len(idx) {
+					return
+				}
+				i := idx[k]
+				func() {
+					defer func() {
+						if e := recover(); e != nil {
+							c.Fail(section+":panic", fmt.Sprintf("unexpected panic in parallel case %s#%d: %v", section, i, e),
+								map[string]interface{}{"panic": fmt.Sprint(e), "stack": string(debug.Stack())})
+						}
+					}()
+					fn(i, c.Rand(fmt.Sprintf("%s#%d", section, i)))
+				}()
+				c.mu.Lock()
+				c.res.Evaluations++
+				c.mu.Unlock()
+			}
+		}()
+	}
+	wg.Wait()
+}
+
 // Section runs a bulk block (sweeps) once on the shard that owns it, or on all shards if
 // sharded is true (the block then uses c.Shard/c.NShards itself).
 func (c *Ctx) Section(name string, sharded bool, fn func()) {
